@@ -320,7 +320,7 @@ func record(ctx context.Context, level Level, tag string, logger Logger, skip in
 	)
 	if enableCaller {
 		if fastCaller {
-			file, line = FastCaller(skip)
+			file, line = FastCaller(skip + 1) // +1: FastCaller counts from its own caller, i.e. record
 		} else {
 			_, file, line, _ = runtime.Caller(skip + 1)
 		}
